@@ -199,8 +199,15 @@ def run_case(d, images, id_order, file_orders, crash_at, mode, rename_crash, par
             bad("moved-to-published-while-incomplete", "%s is under published/ with store state %r" % (uid, st))
         if in_pub == in_appr:
             bad("approved-published-inconsistent", "%s: approved=%r published=%r" % (uid, in_appr, in_pub))
-    # recovery: re-run publish without faults
-    mgr2 = PipelineManager(work)
+    # recovery: re-run publish without faults - on the same manager object (a long-lived session retrying)
+    # for every other case, on a fresh one (a new command invocation) otherwise
+    if (fs.n + len(id_order)) % 2 == 0:
+        mgr2 = mgr
+        mgr._pipeio = fs.inner
+        cfg["recovery"] = "same-manager"
+    else:
+        mgr2 = PipelineManager(work)
+        cfg["recovery"] = "fresh-manager"
     try:
         with quiet():
             mgr2.publish()
@@ -213,6 +220,77 @@ def run_case(d, images, id_order, file_orders, crash_at, mode, rename_crash, par
             bad("recovery-incomplete", "after re-running publish the store has %r for %s" % (st, uid))
         if os.path.isdir(os.path.join(work, "approved", uid)) or not os.path.isdir(os.path.join(work, "published", uid)):
             bad("recovery-not-moved", "%s not moved to published/ by the re-run" % uid)
+
+
+class CopyFault(object):
+    """The k-th copy performed *inside* the local store fails with an OSError after writing half of
+    the data (disk full, I/O error): a failure the store itself sees, not one around it."""
+
+    def __init__(self, k, errno_):
+        self.k = k
+        self.errno = errno_
+        self.n = 0
+
+    def __enter__(self):
+        import shutil as _sh
+        from toasty.pipeline import local_io
+
+        self.mod = local_io
+        self.real = local_io.shutil.copyfileobj
+        outer = self
+
+        def copyfileobj(src, dst, *a, **kw):
+            outer.n += 1
+            if outer.n == outer.k:
+                data = src.read()
+                dst.write(data[: len(data) // 2])
+                raise OSError(outer.errno, os.strerror(outer.errno))
+            return outer.real(src, dst, *a, **kw)
+
+        class _Shim(object):
+            def __getattr__(self, name):
+                return getattr(_sh, name)
+
+        shim = _Shim()
+        shim.copyfileobj = copyfileobj
+        self.saved = local_io.shutil
+        local_io.shutil = shim
+        return self
+
+    def __exit__(self, *a):
+        self.mod.shutil = self.saved
+
+
+def store_fault_cases(part):
+    """An OSError inside the store's copy must make publish fail visibly, and never leave an
+    index.wtml next to missing or torn files."""
+    from toasty.pipeline import PipelineManager
+
+    names = NAMES[:4]
+    with scratch("c18s") as d:
+        for order in itertools.permutations(names):
+            for k in range(1, len(names) + 1):
+                for en in (28, 5):  # ENOSPC, EIO
+                    cfg = {"store_fault": True, "listdir_order": list(order), "copy": k, "errno": en}
+                    part.case(nontrivial=True)
+                    work, store = setup_work(d, {"img1": list(names)})
+                    mgr = PipelineManager(work)
+                    raised = False
+                    try:
+                        with quiet(), ListdirOrder({os.path.realpath(os.path.join(work, "approved", "img1")): list(order)}), CopyFault(k, en):
+                            mgr.publish()
+                    except OSError:
+                        raised = True
+                    except Exception:
+                        raised = True
+                    st = store_state(store, "img1", names)
+                    others_ok = all(v == "complete" for n, v in st.items() if n != "index.wtml")
+                    if st["index.wtml"] != "absent" and not others_ok:
+                        part.violation("index-present-while-incomplete/mode=store-oserror", "%r: store state %r" % (cfg, st), cfg)
+                    if not raised and not all(v == "complete" for v in st.values()):
+                        part.violation("publish-succeeds-with-incomplete-store/mode=store-oserror", "%r: publish returned normally although a copy inside the store failed; store state %r" % (cfg, st), cfg)
+                    if os.path.isdir(os.path.join(work, "published", "img1")) and not all(v == "complete" for v in st.values()):
+                        part.violation("moved-to-published-while-incomplete/mode=store-oserror", "%r: %r" % (cfg, st), cfg)
 
 
 def gen_cases(tier):
@@ -339,13 +417,16 @@ def run(tier, seed):
     n = par.ncores() * 2
     par.pmap(_work, [cases[i::n] for i in range(n)], rep)
     refresh_check(rep)
+    store_fault_cases(rep)
     return rep.finish()
 
 
 def replay(payload):
     r = payload["replay"]
     part = Part()
-    if r.get("refresh"):
+    if r.get("store_fault"):
+        store_fault_cases(part)
+    elif r.get("refresh"):
         refresh_check(part)
     else:
         with scratch("c18p") as d:
